@@ -352,6 +352,35 @@ def check(fx, rep, tier):
                 sample={"rule": "R13.4", "fn": b["def"], "work": WORK[cd], "polled": ok} if n_work <= 12 else None,
             )
     rep.floor("R13.4", n_work, 9, "long-running loops named by the property")
+    # loops whose length is bounded by the *configured* memory-operation limit are as long as the bulk copies: they must poll too
+    LIMIT_FIELDS = ("max_single_operation_bytes", "single_memory_operation_size_limit")
+    n_lim = 0
+    for b in fx.fn_bodies():
+        hir = b.get("hir")
+        if not hir or b.get("from_expansion") or b["def"] not in pipeline:
+            continue
+        root = hir["value"]
+        mutated = None
+        for m, mps in F.exprs(root, "Match"):
+            if "ForLoop" not in m.get("source", ""):
+                continue
+            if mutated is None:
+                mutated = T.mutated_locals(root)
+            it = T.term(m["scrut"], T.env_at(mps, m, mutated), mutated)
+            if not any(st[0] == "field" and st[2] in LIMIT_FIELDS for st in T.subterms(it)):
+                continue
+            n_lim += 1
+            loops_in = [x for x, _ in F.walk(m) if x.get("k") == "Loop"]
+            ok = any(id(l) in polled_loops for l in loops_in)
+            rep.oblige(
+                ok,
+                "R13.4",
+                f"limit-bounded-loop:{F.strip_generics(b['def'])}#{n_lim}",
+                F.loc(m["span"]),
+                f"the loop in `{b['def']}` runs for as many iterations as the configured memory-operation limit allows and never polls the watchdog: with that limit raised, an instruction spends an unbounded amount of unmonitored work here",
+                sample={"rule": "R13.4", "fn": b["def"], "bounded_by": "memory-operation limit", "polled": ok},
+            )
+    rep.floor("R13.4", n_lim, 3, "loops bounded by the configured memory-operation limit")
 
     # the stop kind is never filtered by permissive mode (R17.1's normal form) ------------------
     vm = VMModel(fx, cg)
